@@ -598,10 +598,10 @@ func vfC20Straggler(t *testing.T, res *vfResult, suite string, before int, from 
 		case 1:
 			res.Count("stragglers_delivered", 1)
 		case 0:
-			res.Violate(fmt.Sprintf("C20:payload-lost-although-delivered:straggler:%s", map[bool]string{true: "epoch-beyond-65536-records", false: "young-epoch"}[before >= 65536]),
+			res.Violate(fmt.Sprintf(res.Property+":payload-lost-although-delivered:straggler:%s", map[bool]string{true: "epoch-beyond-65536-records", false: "young-epoch"}[before >= 65536]),
 				fmt.Sprintf("%s: a payload written before UpdateKeys, whose datagram reached the peer right after the KeyUpdate, was never returned by Read (the peer read %d payloads in all)", id, len(y.ReadsSnapshot())), replay)
 		default:
-			res.Violate("C20:payload-delivered-twice:straggler", fmt.Sprintf("%s: delivered %d times", id, got[string(pl)]), replay)
+			res.Violate(res.Property+":payload-delivered-twice:straggler", fmt.Sprintf("%s: delivered %d times", id, got[string(pl)]), replay)
 		}
 	}
 	p.Close()
